@@ -165,7 +165,8 @@ def h2_frames(p: int, op: int, n: int, a: int, b: int, c: int) -> None:
 
 
 @harness("C15", "connect_replies",
-         quick=[{"flavour": fl, "mode": md} for fl in ("sync", "async") for md in ("mutate", "scratch")],
+         quick=[{"flavour": fl, "mode": md, "v": v} for fl in ("sync", "async") for md in ("mutate", "scratch") for v in (0, 1)
+                if not (md == "scratch" and v == 1)],
          bounds="valid conversation: '200 Connection established' reply to CONNECT (~40 bytes); one mutation; the proxy closes after its reply, so the request itself always ends in an error",
          **dict(COMMON, require=("raised",)))
 def connect_replies(p: int, op: int, n: int, a: int, b: int, c: int) -> None:
@@ -179,7 +180,11 @@ def connect_replies(p: int, op: int, n: int, a: int, b: int, c: int) -> None:
     with concrete():
         is_async = shard("flavour", "sync") == "async"
         vrt.new_runtime(clock=1)
-        net = Net(lambda net, sock: MutatingPeer(ProxyServer(lambda t: H1Server()), fn,
+        # v=0: the proxy accepts ('200 Connection established'); v=1: it refuses
+        # with a reason phrase (mutations then also produce non-ASCII reasons)
+        refuse = shard("v", 0) == 1
+        reply = (lambda req: Resp(status=403, reason=b"Acces refuse", framing="none")) if refuse else None
+        net = Net(lambda net, sock: MutatingPeer(ProxyServer(lambda t: H1Server(), connect_reply=reply), fn,
                                                  lambda inner: bool(inner.connect_requests)))
         pool = scen.make_pool(is_async, net, proxy=httpcore.Proxy("http://proxy.test:3128"))
         _run(pool, scen.Api(is_async), "https://example.com/x", "connect",
